@@ -53,6 +53,46 @@ theorem C19_value_changed (f : Name → V → V) (ins : List (Name × V)) (hn : 
     · exact Or.inr ⟨hh, hne⟩
     · exact Or.inl (hd.mpr ⟨p, hp, hh⟩)
 
+/-- the code's check exempts no field: the skipping variant with an empty exemption is `runJob` itself -/
+theorem C19_skip_none (memo check : Bool) (j : Job V H C) (f : Name → V → V) :
+    runJobSkip hash combine (fun _ => false) memo check j f = runJob hash combine memo check j f := by
+  have hfilt : ∀ l : List Name, l.filter (fun n => !(fun _ => false) n) = l := by
+    intro l; induction l <;> simp_all
+  unfold runJobSkip
+  simp only [hfilt]
+  rfl
+
+/-- documentation: a check that exempts ANY set of fields (`skip`) stays silent whenever the body's changes are
+    confined to exempted fields — whatever the reason for the exemption ("the value is hashable, so it cannot
+    change") — while `C19_detect` (no exemption) reports them.  So all fields, of all kinds of value, must be
+    re-hashed. -/
+theorem C19_skip_misses (skip : Name → Bool) (f : Name → V → V) (ins : List (Name × V))
+    (hn : (ins.map (·.1)).Nodup) (j : Job V H C) (hj : j = Job.fresh ins ∨ j = submitted hash combine ins)
+    (hconf : ∀ p ∈ ins, hash (f p.1 p.2) ≠ hash p.2 → skip p.1 = true) :
+    (runJobSkip hash combine skip true true j f).raised = false := by
+  unfold runJobSkip
+  rw [runJob_memo hash combine true f ins hn j hj]
+  simp only [Bool.true_and, Bool.not_eq_false', List.isEmpty_iff, changedSpec]
+  rw [List.filter_eq_nil_iff]
+  intro n hnm
+  obtain ⟨p, hp, hpn⟩ := List.mem_filterMap.mp hnm
+  by_cases he : hash (f p.1 p.2) = hash p.2
+  · simp [he] at hpn
+  · simp only [he, if_false, Option.some.injEq] at hpn
+    subst hpn
+    simp [hconf p hp he]
+
+/-- concrete witness: field 1 is exempted and the body changes exactly field 1 — the exempting check is silent,
+    the real check raises and names field 1 -/
+theorem C19_witness_skip :
+    let ins : List (Name × Nat) := [(0, 1), (1, 2)]
+    let f : Name → Nat → Nat := fun n v => if n = 1 then v + 10 else v
+    (runJobSkip (fun v => v) (fun hs => hs) (fun n => n == 1) true true
+        (Job.fresh ins : Job Nat Nat (List (Name × Nat))) f).raised = false
+    ∧ (runJob (fun v => v) (fun hs => hs) true true (Job.fresh ins : Job Nat Nat (List (Name × Nat))) f).raised = true
+    ∧ (runJob (fun v => v) (fun hs => hs) true true (Job.fresh ins : Job Nat Nat (List (Name × Nat))) f).changed = [1] := by
+  decide
+
 /-- without the call (the mutation "skip the hash-change check") nothing is ever raised -/
 theorem C19_no_check_silent (memo : Bool) (f : Name → V → V) (j : Job V H C) :
     (runJob hash combine memo false j f).raised = false := rfl
